@@ -386,7 +386,7 @@ Section Lattice.
       - left. exists y. auto. }
     assert (Hbl1 : black (c :: G) st1).
     { intros z Hz HnG d Hd. rewrite Hm1 in Hz. rewrite Hm1.
-      destruct (Nat.eqb_spec z c) as [->|Hne]; [exfalso; apply HnG; now left|].
+      destruct (Nat.eqb_spec z c) as [E|Hne]; [exfalso; apply HnG; left; now symmetry|].
       destruct (Nat.eqb d c); auto. apply (Hbl z); auto. intros Hin. apply HnG. now right. }
     assert (Hmono1 : forall z, mark_of st z = true -> mark_of st1 z = true).
     { intros z Hz. rewrite Hm1. destruct (Nat.eqb z c); auto. }
